@@ -2,7 +2,7 @@
 from ..engine import rule
 from ..db import (walk, peel, peel_casts, render, callee, path_ends, short_path, is_call, call_args, lit_int,
                   diverges, exit_kind, path_conditions, atoms, AnchorMissing, local_name)
-from ..guards import mentions, is_call_to
+from ..guards import mentions, is_call_to, cmp_atom
 from ..origins import origins, index as oindex, for_loop_parts, pat_bindings
 
 META = {
@@ -120,9 +120,42 @@ def _let_init(f, name):
     return None
 
 
-def _pred_calls(e):
+def _decisions(sl):
+    """the two per-character decisions of replace_slow, identified by ROLE: the scrutinee `(a, b)` of the match whose single-true arms
+    apply lower-casing resp. NFKC -> {'lower': expr, 'nfkc': expr}"""
+    for n, _ in walk(sl.hir):
+        if n.get("k") == "Match" and n.get("src") == "Normal" and peel(n["scrut"]).get("k") == "Tup" and len(peel(n["scrut"])["elems"]) == 2:
+            out = {}
+            for a in n["arms"]:
+                p = a["pat"]
+                if p.get("k") != "Tuple" or len(p["pats"]) != 2:
+                    continue
+                bs = [(x.get("e") or {}).get("v") if x.get("k") == "Expr" else None for x in p["pats"]]
+                if sorted(map(bool, bs)) != [False, True] or None in bs:
+                    continue
+                idx = 0 if bs[0] else 1
+                has_n = mentions(a["body"], lambda x: x.get("k") == "MethodCall" and x.get("method") == "nfkc")
+                has_l = mentions(a["body"], lambda x: x.get("k") == "MethodCall" and x.get("method") == "to_lowercase")
+                if has_n and not has_l:
+                    out["nfkc"] = peel(n["scrut"])["elems"][idx]
+                if has_l and not has_n:
+                    out["lower"] = peel(n["scrut"])["elems"][idx]
+            if len(out) == 2:
+                return out
+    return {}
+
+
+def _pred_calls(e, db=None, f=None):
     from ..db import walk_x
-    return sorted({(callee(c) or "").split("::")[-1] for c, _ in walk_x(e) if is_call(c)
+    nodes = [c for c, _ in walk_x(e)]
+    if db is not None:
+        # look into private helpers the expression calls
+        for c in list(nodes):
+            if is_call(c):
+                g = db.fns.get(c.get("resolved") or "") or db.fns.get(c.get("callee") or "") or db.fns.get(callee(c) or "")
+                if g is not None and g.hir and not g.trait and g.info.get("vis") != "Public" and g.pkg == f.pkg:
+                    nodes += [x for x, _ in walk(g.hir)]
+    return sorted({(callee(c) or "").split("::")[-1] for c in nodes if is_call(c)
                    and (callee(c) or "").split("::")[-1] in ("is_nfkc_quick", "is_uppercase", "is_lowercase", "is_nfkc", "is_nfc_quick",
                                                             "is_nfkd_quick", "is_alphabetic", "should_ignore", "to_lowercase", "to_uppercase")})
 
@@ -155,10 +188,8 @@ def path_choice(db, ctx):
            "scan)" % (sorted(neg), whole), fn=f, site=fast[0][0].get("sp"))
     sl = db.one("replace_slow", PLUGIN)
     per = {}
-    for nm in ("need_lowercase", "need_nkfc", "need_nfkc"):
-        init = _let_init(sl, nm)
-        if init:
-            per[nm] = _pred_calls(init)
+    for role, ex in _decisions(sl).items():
+        per[role] = _pred_calls(ex, db, sl)
     per_preds = sorted({p for v in per.values() for p in v if p != "should_ignore"})
     ctx.ob("whole-text-vs-per-char-predicates", sorted(p for p in preds if p != "should_ignore") == per_preds and per_preds == ["is_nfkc_quick", "is_uppercase"],
            "whole-text predicates use %s, per-character decisions use %s (must be the same set: is_nfkc_quick, is_uppercase)" % (preds, per), fn=sl)
@@ -169,14 +200,41 @@ def path_choice(db, ctx):
                       "replaced range is offset..offset+ch.len_utf8(); the min_offset skip dominates both replacement sites")
 def per_char(db, ctx):
     sl = db.one("replace_slow", PLUGIN)
-    init = _let_init(sl, "need_nkfc") or _let_init(sl, "need_nfkc")
+    init = _decisions(sl).get("nfkc")
     ok = False
+    table = {}
     if init:
-        at = atoms(init, True)
-        has_ign = any(peel(a).get("k") == "MethodCall" and peel(a).get("method") == "should_ignore" and p is False for a, p in at)
-        has_q = any(mentions(a, is_call_to("is_nfkc_quick")) for a, p in at)
-        ok = has_ign and has_q
-    ctx.ob("replace_slow|nfkc-iff-not-ignored", ok, "need_nfkc = `%s` (must be !should_ignore(ch) && <not quick-normalised>)" % (render(init) if init else None), fn=sl)
+        from ..flow import bool_eval
+        for ign in (True, False):
+            for quick in (True, False):
+                def ev(a, ign=ign, quick=quick):
+                    a = peel(a)
+                    if a.get("k") == "MethodCall" and a.get("method") == "should_ignore":
+                        return ign
+                    if a.get("k") == "Match" and a.get("src") == "Normal" and mentions(a["scrut"], is_call_to("is_nfkc_quick")):
+                        # match is_nfkc_quick(..) { Yes => b1, _ => b2 } (also what matches! expands to)
+                        yes = other = None
+                        for arm in a["arms"]:
+                            b = peel(arm["body"])
+                            while b.get("k") == "Block" and not b.get("stmts") and "expr" in b:
+                                b = peel(b["expr"])
+                            if b.get("k") != "Lit" or b.get("t") != "bool":
+                                return None
+                            pth = (arm["pat"].get("e") or {}).get("path") or arm["pat"].get("path") or ""
+                            if pth.endswith("IsNormalized::Yes"):
+                                yes = bool(b["v"])
+                            else:
+                                other = bool(b["v"]) if other in (None, bool(b["v"])) else "mixed"
+                        if yes is None or other in (None, "mixed"):
+                            return None
+                        return yes if quick else other
+                    c = cmp_atom(a)
+                    if c and c[0] in ("Eq", "Ne") and mentions(a, is_call_to("is_nfkc_quick")) and mentions(a, lambda x: x.get("k") == "Path" and (x.get("path") or "").endswith("IsNormalized::Yes")):
+                        return quick if c[0] == "Eq" else (not quick)
+                    return None
+                table[(ign, quick)] = bool_eval(db, sl, init, ev)
+        ok = all(v == ((not ign) and (not quick)) for (ign, quick), v in table.items())
+    ctx.ob("replace_slow|nfkc-iff-not-ignored", ok, "need_nfkc = `%s`; value by (ignored, quick-normalised) = %s (must be true exactly for (false, false))" % (render(init) if init else None, table), fn=sl)
     # order of lower-casing and nfkc in the (true,true) arm
     order_ok = False
     for n, _ in walk(sl.hir):
@@ -193,13 +251,13 @@ def per_char(db, ctx):
         if is_call(c) and path_ends(callee(c), "handle_normalization_slow"):
             a = call_args(c)
             n_calls += 1
-            ok = local_name(a[3]) == "offset" and render(a[4]) == "ch.len_utf8()"
+            ok = local_name(a[3]) == "offset" and render(a[4], x=True) == "ch.len_utf8()"
             ctx.ob("replace_slow|range-args#%d" % n_calls, ok, "handle_normalization_slow(.., start=%s, len=%s, ..) must be (offset, ch.len_utf8())" % (render(a[3]), render(a[4])), fn=sl, site=c.get("sp"))
     hn = db.one("handle_normalization_slow", PLUGIN)
     for c, ps in walk(hn.hir):
         if c.get("k") == "MethodCall" and c.get("method") == "replace_char_iter":
-            ctx.ob("handle_normalization_slow|range", render(c["args"][0]) == "ops::Range{start: start, end: (start + len)}" or
-                   render(c["args"][0]).replace(" ", "") in ("ops::Range{start:start,end:(start+len)}", "Range{start:start,end:(start+len)}"),
+            from ..inline import range_bounds
+            ctx.ob("handle_normalization_slow|range", range_bounds(c["args"][0]) == ("start", "(len + start)"),
                    "replacement range is `%s` (must be start..start+len)" % render(c["args"][0]), fn=hn)
     # min_offset skip
     conts = []
